@@ -393,7 +393,19 @@ _C06_OPS = {0: ["and", "or"], 1: ["add"], 2: ["minus", "times"], 3: ["divide", "
 
 def c06_programs(name):
     parts = name.split("_")
-    if parts[0] == "binary":
+    if name == "index_target_assign":
+        yield "do f() start\n  return [[1]]\nend\nf()[0] get 2\nshout(1)\n"
+        yield "do f() start\n  return [[1]]\nend\nf()[0][0] get 2\nshout(1)\n"
+    elif name == "index_target_method":
+        yield "do f() start\n  return [[1]]\nend\nf()[0].push(1)\nshout(1)\n"
+        yield "do f() start\n  return [[1]]\nend\nshout(f()[0].pop())\n"
+    elif name == "bare_member":
+        yield 'make x get "abc"\nshout(x.len)\n'
+        yield 'make x get [1]\nmake y get x.len\nshout(y)\n'
+    elif name == "callee_not_a_name":
+        yield "do f() start\n  return 1\nend\nmake a get [1]\nshout(a[0]())\n"
+        yield "do f() start\n  return 1\nend\nshout(f()())\n"
+    elif parts[0] == "binary":
         oc, lk, rk = int(parts[1][1:]), int(parts[2]), int(parts[3])
         for op in _C06_OPS[oc]:
             for l in _C06_LITS[lk]:
